@@ -1252,6 +1252,13 @@ func (e *Entry) ApplyDeviate(deviateOpts ...DeviateOpt) []error {
 						case dp.RPC != nil && dp.RPC.Output == deviatedNode:
 							dp.RPC.Output = nil
 						default:
+							if dp.Dir[deviatedNode.Name] != deviatedNode {
+								// Removed by an earlier deviate statement of this
+								// deviation: delete would only record the problem
+								// on the parent, where nobody looks any more.
+								appendErr(fmt.Errorf("%s: node %s is not supported already, cannot deviate it again", Source(e.Node), deviatedNode.Name))
+								continue
+							}
 							dp.delete(deviatedNode.Name)
 						}
 					}
